@@ -625,3 +625,11 @@ Lemma fmt4k_nearest_both m e :
   (0 <= e -> fmt4k m e = m * 2 ^ e * 10000) /\
   (e < 0 -> 2 * Z.abs (fmt4k m e * 2 ^ (- e) - 10000 * m) <= 2 ^ (- e)).
 Proof. split; [apply fmt4k_exact | apply fmt4k_nearest]. Qed.
+
+(* two different (well-shaped) tables never give the same file *)
+Lemma csv_text_injective r1 r2 :
+  well_shaped false r1 = true -> well_shaped false r2 = true -> csv_text r1 = csv_text r2 -> r1 = r2.
+Proof.
+  intros H1 H2 E. pose proof (csv_roundtrip r1 H1) as P1. pose proof (csv_roundtrip r2 H2) as P2.
+  rewrite E in P1. congruence.
+Qed.
